@@ -36,6 +36,8 @@ Definition sliced_is_none (ex : xstate) : bool := match x_sliced ex with Some _ 
 Fixpoint zinsert (x : Z) (l : list Z) : list Z :=
   match l with [] => [x] | y :: r => if x <? y then x :: l else if x =? y then l else y :: zinsert x r end.
 Definition zsorted (l : list Z) : list Z := fold_right zinsert [] l.
+(* the ids of the terms held in the given block fields *)
+Definition block_ids (ex : xstate) (flds : list bfield) : list Z := map (x_block ex) flds.
 Definition key_is_int (k : xkey) : bool := match k with KInt _ => true | KTup _ => false end.
 Definition key_int (k : xkey) : Z := match k with KInt z => z | KTup _ => 0 end.
 Definition key_tuple (k : xkey) : list Z := match k with KInt _ => [] | KTup ks => ks end.
@@ -74,6 +76,6 @@ Definition class_ids {A} (eqb : A -> A -> bool) (l : list A) : list Z := class_i
    on the other; both slices are {0}.  Term ids: 100 = x, 200 = `x > 9`, 201 = `not (x > 9)`.
    (A digest of the slice INDICES instead of the conditions could not tell them apart.) *)
 Module BranchInst.
-  Definition hi : xstate := mkX 1 [(10, 77)] [(10, [(KTup [0; 0; 0], 100)])] [200] (Some [0]).
-  Definition lo : xstate := mkX 1 [(10, 77)] [(10, [(KTup [0; 0; 0], 100)])] [201] (Some [0]).
+  Definition hi : xstate := mkX 1 [(10, 77)] [(10, [(KTup [0; 0; 0], 100)])] [200] (Some [0]) (fun _ => 0).
+  Definition lo : xstate := mkX 1 [(10, 77)] [(10, [(KTup [0; 0; 0], 100)])] [201] (Some [0]) (fun _ => 0).
 End BranchInst.
